@@ -3,8 +3,18 @@
    This file holds ONLY statements, each closed by `exact <lemma>`, plus Examples. *)
 From Coq Require Import List NArith ZArith Bool.
 Import ListNotations.
-From GMQ Require Import Data.QueueSwap Proofs.QueueSwapProofs.
+From GMQ Require Import Data.QueueSwap Data.gen.QueueSwapGen Proofs.QueueSwapProofs.
 Open Scope N_scope.
+
+(* Atomicity the model assumes: each label is one step because the Go method runs under a lock.  The translator
+   (translator/cmd/queueswap) re-reads that discipline from queue.go and msgstorage.go on every run. *)
+Theorem C19_generated_atomicity :
+  push_under_actlock = true /\ pop_under_actlock_r = true /\ pop_ring_bracket = true /\
+  requeue_under_actlock_r = true /\ ack_under_actlock_r = true /\ purge_under_ringlock = true /\
+  store_add_under_persistlock = true /\ store_update_under_persistlock = true /\ store_del_under_persistlock = true /\
+  persist_swaps_under_persistlock = true.
+Proof. repeat split; reflexivity. Qed.
+Print Assumptions C19_generated_atomicity.
 
 (* Full strength: any two limits >= 1, any two schedules (loader turns, persist ticks anywhere) of the same
    client operations give the same client-visible outputs and final contents.  REFUTED by the model as the
